@@ -70,7 +70,7 @@ func check(run *ev.Run, c encx.Cfg, enc zapcore.Encoder, e encx.Ent, p encx.Plac
 			fail("context-malformed", "field object is not valid JSON: "+err.Error())
 			return
 		}
-		if d := jsonx.Diff(node, want, encx.CmpNum); d != "" {
+		if d := encx.DiffFields(node, p, c.Ref()); d != "" {
 			fail("context-value", "field object differs from what the JSON encoder contract gives: "+d)
 			return
 		}
